@@ -28,6 +28,8 @@ def one_transfer(rng, T=16, C=8, kinds=None, sizes=None):
         t['flavor'] = rng.choice(['bare', 'bare', 'declared', 'raising'])
     if kind == 'download' and t['dst'] == 'path':
         t['preexisting'] = rng.random() < 0.3
+        if t['preexisting'] and rng.random() < 0.3:
+            t['symlink'] = True  # the destination name is a symbolic link to the existing ordinary file
     if ((kind == 'upload' and t.get('src') == 'path') or (kind == 'download' and t.get('dst') == 'fifo')) and rng.random() < 0.2:
         t['symlink'] = True  # the path given to the library is a symbolic link to the file / FIFO
     if kind != 'delete' and rng.random() < 0.12:
@@ -79,6 +81,10 @@ def sprinkle(cases, seed, p_bw=0.12, p_log=0.08, p_prior=0.08, p_version=0.12):
             # subscriber classes whose callbacks are inherited / come from a mixin
             if isinstance(t, dict) and 'subs' not in t and r.random() < 0.06:
                 t['subs'] = [{'flavor': r.choice(['inherited', 'mixin'])}]
+            # an existing destination that is a symbolic link to an ordinary file
+            if isinstance(t, dict) and t.get('kind') == 'download' and t.get('dst') == 'path' and t.get('preexisting') and 'symlink' not in t \
+                    and t.get('same_dest_as') is None and r.random() < 0.25:
+                t['symlink'] = True
             # the file is named relative to the working directory ('name' / './name') instead of by an absolute path
             if isinstance(t, dict) and ((t.get('kind') == 'upload' and t.get('src') == 'path') or (t.get('kind') == 'download' and t.get('dst') == 'path')) \
                     and 'relative' not in t and not t.get('dst_is_dir') and not c.get('real') and r.random() < 0.12:
